@@ -8,7 +8,7 @@ from pyvc.spec import ContractSet
 
 HOME = os.environ.get('VERIF_HOME', os.path.dirname(os.path.dirname(os.path.abspath(__file__))))
 
-_MODULES = ['ghosts', 'externals', 'datatypes', 'consensus', 'coinstate', 'lemmas']
+_MODULES = ['ghosts', 'externals', 'datatypes', 'consensus', 'coinstate', 'manager', 'lemmas']
 _cset = None
 
 
@@ -46,6 +46,10 @@ def _tx_key(eng, x, st):
 
 # level / notes per property; functions and lemmas come from the props tags on the contracts
 PROPS = {
+    'C13': dict(level='proof',
+                explanation="pool invariant (each pending transaction valid by itself and at the head; no output referenced "
+                            "twice) as pre/post-condition of its three writers; admission appends exactly the transaction "
+                            "or changes nothing; a head change keeps exactly the still-valid ones"),
     'C02': dict(level='proof', explanation="value post-conditions of the validators and of the unspent-set appliers"),
     'C03': dict(level='exploration', native=['native.c03'],
                 explanation="PROOF part: whole-view post-condition of add_block_no_validation (every earlier entry is the old "
